@@ -510,6 +510,9 @@ def _regex_item(draw, rendered):
         l = draw(st.sampled_from(rendered))
         i = draw(st.integers(0, max(len(l) - 1, 0)))
         n = draw(st.sampled_from([2, 3, 4, 5, 6, 1]))
+        rep = [k for k in range(i + 1, min(i + 9, len(l))) if l[k] == l[i]] if i < len(l) else []
+        if rep and draw(tg.die(3)) == 0:
+            n = rep[0] - i + 1 + draw(st.integers(0, 2))       # a slice whose first character recurs
         lit = l[i:i + n] or "#"
         at_start, at_end = i == 0, i + n >= len(l)
     elif mode == "word":
@@ -519,6 +522,11 @@ def _regex_item(draw, rendered):
     atoms = [draw(_atom(ch)) for ch in lit]
     conf = "".join(a[0] for a in atoms)
     ref = "".join(a[1] for a in atoms)
+    if mode == "slice" and len(lit) >= 2 and lit[0] in lit[1:] and draw(tg.die(3)) != 0:
+        # a numbered back-reference: "(x)...\\1" - group numbers are local to one configured pattern
+        j = lit.index(lit[0], 1)
+        conf = "(" + atoms[0][0] + ")" + "".join(a[0] for a in atoms[1:j]) + "(?:\\1)" + "".join(a[0] for a in atoms[j + 1:])
+        ref = "(" + atoms[0][1] + ")" + "".join(a[1] for a in atoms[1:j]) + "(?:\\1)" + "".join(a[1] for a in atoms[j + 1:])
     anch = draw(tg.die(8))
     if anch == 7 or (at_start and anch >= 4):
         conf, ref = "^" + conf, "^" + ref
@@ -530,7 +538,10 @@ def _regex_item(draw, rendered):
         conf, ref = "%s|%s" % (other, conf), "%s|%s" % (other, ref)
     elif alt == 4:
         other = re.escape(draw(st.sampled_from(["zzqx", "never"])))
-        conf, ref = "(%s|%s)" % (conf, other), "(%s|%s)" % (ref, other)
+        if "\\1" in conf:
+            conf, ref = "(?:%s|%s)" % (conf, other), "(?:%s|%s)" % (ref, other)     # keep \\1 = the inner group
+        else:
+            conf, ref = "(%s|%s)" % (conf, other), "(%s|%s)" % (ref, other)
     return {"conf": conf, "ref": ref}
 
 
